@@ -137,6 +137,12 @@ M = {
  "C04-deadline-rearmed-per-message": ("C04", ["C04"], "missed-reply drop removed AND the deadline re-armed for every message of a batch (round-9 seed on the tree before the fix)",
    [("smtp/smtp.go", "\tif err != nil && errors.As(err, &netErr) && netErr.Timeout() {", "\tif err != nil && errors.As(err, &netErr) && netErr.Timeout() && false {"),
     ("client.go", "\tmessage.sendError = nil\n\tmessage.isDelivered = false\n", "\tmessage.sendError = nil\n\tmessage.isDelivered = false\n\t_ = client.UpdateDeadline(c.connTimeout)\n")]),
+ "C12-silent-short-write-accepted": ("C12", ["C12"], "a write cut short without an error counts as a success again (the fix removed)",
+   [("msgwriter.go", "\tif mw.err == nil && n < len(payload) {", "\tif mw.err == nil && n < len(payload) && false {")]),
+ "C12-unknown-encoding-straight-to-destination": ("C12", ["C12"], "bodies with an encoding outside the constants are written past the buffer again (the fix removed)",
+   [("msgwriter.go", "nor would a failing write be noticed\n\t\tencodedWriter = quotedprintable.NewWriter(&writeBuffer)", "nor would a failing write be noticed\n\t\tencodedWriter = quotedprintable.NewWriter(writer)")]),
+ "C11-pgp-boundary-not-kept": ("C11", ["C11"], "the generated boundary of a PGP/MIME multipart is not remembered (the fix removed)",
+   [("msgwriter.go", "\t\t\tpgpBoundary = msg.multiPartBoundary[mimePGP]\n", "\t\t\tpgpBoundary = \"\"\n")]),
  "C17-deadline-times-thousand": ("C17", ["C17"], "deadline armed with timeout*1000",
    [("smtp/smtp.go", "c.conn.SetDeadline(time.Now().Add(timeout))", "c.conn.SetDeadline(time.Now().Add(timeout * 1000))")]),
  "C17-dial-deadline-cleared-after-greeting": ("C17", ["C17"], "the dial-phase deadline is cleared once the greeting was read",
